@@ -24,7 +24,7 @@ def declare(spec):
 
     # next arrival = the (node, class) stream with the smallest date; ties keep the first in dict order
     add(spec, "ArrivalNode.find_next_event_date",
-        requires=["forall_in(self.event_dates_dict, lambda nd: forall_in(self.event_dates_dict[nd], lambda c: is_time(self.event_dates_dict[nd][c])))"],
+        requires=[__import__("contracts.c_node", fromlist=["INV"]).INV("forall_in(self.event_dates_dict, lambda nd: forall_in(self.event_dates_dict[nd], lambda c: is_time(self.event_dates_dict[nd][c])))")],
         modifies=["next_node@self", "next_class@self", "next_event_date@self"],
         ensures=[
             ("C02+C10:next-arrival-is-the-minimum",
@@ -46,3 +46,114 @@ def declare(spec):
                 "implies(minnd is None, isinf(mindate))"],
         },
         props=["C02", "C10"])
+
+
+def declare_arrivals(spec):
+    from .c_node import INV
+    M = spec.macros
+    IND = "obj:Individual"
+    M["arr_ok"] = ("lambda a: a.next_node is not None and a.next_class is not None and 1 <= a.next_node and a.next_node <= nnodes() "
+                   "and a.simulation.network.number_of_nodes == nnodes() and len(a.simulation.nodes) == nnodes() + 2 "
+                   "and a.next_class in a.simulation.network.customer_class_names "
+                   "and 0 <= a.simulation.network.priority_class_mapping[a.next_class] "
+                   "and a.simulation.network.priority_class_mapping[a.next_class] < a.simulation.number_of_priority_classes")
+    M["full"] = ("lambda a, n: n.number_of_individuals >= n.node_capacity or "
+                 "(a.simulation.nodes[0].number_of_individuals - 1) - a.simulation.nodes[len(a.simulation.nodes) - 1].number_of_individuals >= a.system_capacity")
+
+    add(spec, "ArrivalNode.batch_size",
+        types={"nd": "int", "clss": "str"}, returns="val", modifies=[], raises=[("ValueError", "True")],
+        ensures=[("C10:batch-size-is-a-non-negative-integer", "is_intlike(result) and result >= 0")],
+        props=["C10"])
+    add(spec, "ArrivalNode.inter_arrival",
+        types={"nd": "int", "clss": "str"},
+        requires=["self.simulation.inter_arrival_times[nd][clss] is not None"],
+        returns="fnum", modifies=[], raises=[("ValueError", "True")],
+        ensures=[("C10:inter-arrival-sample-is-validated", "result >= 0")],
+        props=["C10"])
+
+    add(spec, "ArrivalNode.send_individual",
+        types={"next_node": "obj:Node", "next_individual": IND},
+        requires=["prio_ok(next_node, next_individual)", "cls_ok(next_node, next_individual)",
+                  ("C01:customer-is-nowhere", "loc(next_individual) is None"), "not next_individual.server"],
+        modifies=["*"], allocates="any", raises=[("ValueError", "True")],
+        at_call={"accept": [
+            ("C14:accepted-counter", "self.number_accepted_individuals == old(self.number_accepted_individuals) + 1"),
+        ]},
+        expect_calls={"accept": 1},
+        props=["C01", "C14"])
+
+    add(spec, "ArrivalNode.decide_baulk",
+        types={"next_node": "obj:Node", "next_individual": IND},
+        requires=["self.next_class is not None", "prio_ok(next_node, next_individual)", "cls_ok(next_node, next_individual)",
+                  ("C01:customer-is-nowhere", "loc(next_individual) is None"), "not next_individual.server",
+                  INV("float_clock(next_node)"), "len(self.simulation.nodes) >= 2",
+                  INV("cls_is(self.simulation.nodes[len(self.simulation.nodes) - 1], 'ExitNode')")],
+        modifies=["*"], allocates="any", raises=[("ValueError", "True")],
+        at_call={"accept": [
+            ("C13:baulks-only-when-the-draw-is-below-the-baulking-probability",
+             "rnd_num < baulk_probability(next_node.baulking_functions[self.next_class], next_node.number_of_individuals)"),
+            ("C13:baulk-record-written-once",
+             "len(next_individual.data_records) == old(len(next_individual.data_records)) + 1 "
+             "and next_individual.data_records[len(next_individual.data_records) - 1].record_type == 'baulk' "
+             "and next_individual.data_records[len(next_individual.data_records) - 1].node == next_node.id_number "
+             "and next_individual.data_records[len(next_individual.data_records) - 1].arrival_date == next_node.now "
+             "and next_individual.data_records[len(next_individual.data_records) - 1].exit_date == next_node.now "
+             "and next_individual.data_records[len(next_individual.data_records) - 1].queue_size_at_arrival == next_node.number_of_individuals"),
+        ], "send_individual": [
+            ("C13:admitted-when-there-is-no-baulking-function-or-the-draw-is-not-below-the-probability",
+             "next_node.baulking_functions[self.next_class] is None or "
+             "not (rnd_num < baulk_probability(next_node.baulking_functions[self.next_class], next_node.number_of_individuals))"),
+        ]},
+        props=["C01", "C13"])
+
+    add(spec, "ArrivalNode.release_individual",
+        types={"next_node": "obj:Node", "next_individual": IND},
+        requires=["self.next_class is not None", "prio_ok(next_node, next_individual)", "cls_ok(next_node, next_individual)",
+                  ("C01:customer-is-nowhere", "loc(next_individual) is None"), "not next_individual.server",
+                  INV("float_clock(next_node)"), "len(self.simulation.nodes) >= 2",
+                  INV("cls_is(self.simulation.nodes[len(self.simulation.nodes) - 1], 'ExitNode')")],
+        modifies=["*"], allocates="any", raises=[("ValueError", "True")],
+        at_call={"accept": [
+            ("C06:rejected-only-when-the-node-or-the-system-is-full", "full(self, next_node)"),
+            ("C06:rejection-record-shows-the-population-seen",
+             "len(next_individual.data_records) == old(len(next_individual.data_records)) + 1 "
+             "and next_individual.data_records[len(next_individual.data_records) - 1].record_type == 'rejection' "
+             "and next_individual.data_records[len(next_individual.data_records) - 1].node == next_node.id_number "
+             "and next_individual.data_records[len(next_individual.data_records) - 1].exit_date == next_node.now "
+             "and next_individual.data_records[len(next_individual.data_records) - 1].queue_size_at_arrival == next_node.number_of_individuals"),
+        ], "decide_baulk": [
+            ("C06:admitted-only-when-neither-the-node-nor-the-system-is-full", "not full(self, next_node)"),
+        ]},
+        props=["C01", "C06"])
+
+    add(spec, "ArrivalNode.have_event",
+        requires=["arr_ok(self)", "self.simulation.inter_arrival_times[self.next_node][self.next_class] is not None",
+                  "is_time(self.event_dates_dict[self.next_node][self.next_class]) and (is_fin(self.event_dates_dict[self.next_node][self.next_class]) "
+                  "or is_pinf(self.event_dates_dict[self.next_node][self.next_class]))",
+                  INV("forall_obj('Node', lambda m: len(m.individuals) == self.simulation.number_of_priority_classes and float_clock(m) "
+                      "and ref_eq(m.simulation, self.simulation))"),
+                  INV("forall_idx(self.simulation.transitive_nodes, lambda k, m: m.id_number == k + 1)"),
+                  INV("cls_is(self.simulation.nodes[len(self.simulation.nodes) - 1], 'ExitNode')"),
+                  INV("forall_in(self.event_dates_dict, lambda nd: forall_in(self.event_dates_dict[nd], lambda c: is_time(self.event_dates_dict[nd][c])))")],
+        modifies=["*"], allocates="any", raises=[("ValueError", "True")],
+        # consequences of I-CFG / the node invariants for the node the stream feeds (ASSUMED at the call)
+        call_assumes={"release_individual": ["prio_ok(next_node, next_individual)", "cls_ok(next_node, next_individual)",
+                                             "float_clock(next_node)"]},
+        loop_invariants={0: [
+            "arr_ok(self)", "self.next_node == old(self.next_node) and self.next_class == old(self.next_class) and ref_eq(self.system_capacity, old(self.system_capacity))",
+            ("C01+C10:one-customer-created-per-batch-member", "self.number_of_individuals == old(self.number_of_individuals) + _i"),
+            "len(self.simulation.nodes) == nnodes() + 2 and cls_is(self.simulation.nodes[len(self.simulation.nodes) - 1], 'ExitNode')",
+            "self.simulation.inter_arrival_times[self.next_node][self.next_class] is not None",
+            "ref_eq(self.event_dates_dict[self.next_node][self.next_class], old(self.event_dates_dict[self.next_node][self.next_class]))",
+        ]},
+        at_call={"release_individual": [
+            ("C01:identifiers-are-consecutive", "next_individual.id_number == self.number_of_individuals"),
+            ("C09:priority-follows-class", "next_individual.priority_class == self.simulation.network.priority_class_mapping[self.next_class] "
+                                           "and next_individual.customer_class == self.next_class"),
+            ("C03:first-node-recorded", "next_individual.starting_node == next_node.id_number"),
+        ], "find_next_event_date": [
+            ("C10:only-the-fired-stream-advances-by-one-validated-sample",
+             "self.event_dates_dict[self.next_node][self.next_class] >= old(self.event_dates_dict[self.next_node][self.next_class])"),
+        ]},
+        expect_calls={"find_next_event_date": 1},
+        props=["C01", "C03", "C06", "C09", "C10"])
